@@ -55,7 +55,7 @@ func checkC09(c *Ctx) {
 	jobs = append(jobs, c09PipelineJobs(c)...)
 	c.BoundsText = append(c.BoundsText,
 		"termination, kernel level: items.GetItemSets on 45 pattern shapes 'x' OUTER(INNER(operand)) 'y' (OUTER, INNER in {repetition, option, group}; 5 operands incl. ones that match the empty string); termination = unwinding assertions with bound 300 on every loop; a violated unwinding assertion is replayed natively under 20 s / 4 GB and confirmed when the compiled harness does not finish",
-		"pipeline level: the real main() with symbolic flags on well-formed, conflict-free grammar files (lexer-only, nested nullable repetitions, corpus grammars, hostile spellings): terminates inside the unwinding bounds, never exits early, and on return has called exactly the generators the configuration calls for (token, util; lexer unless -no_lexer; parser+errors iff there is a syntax part)",
+		"pipeline level: the real main() with symbolic flags on well-formed, conflict-free grammar files (lexer-only, nested nullable repetitions, corpus grammars, hostile spellings) and four ill-formed ones: terminates inside the unwinding bounds, exits early only on the ill-formed ones and then with a non-zero status, and WHENEVER it returns normally has called exactly the generators the configuration calls for (token, util; lexer unless -no_lexer; parser+errors iff there is a syntax part)",
 		"outside the claim: that the written packages compile (oracle: the Go type checker), hostile spellings in templates, arbitrary byte strings as input, -o/-p handling, real file output (io stubs)")
 	c.RunJobs(filterJobs(jobs), 4)
 }
@@ -69,23 +69,30 @@ func c09PipelineJobs(c *Ctx) []Job {
 		name, why string
 		syn       bool
 		src       string
+		ill       bool // ill-formed: gocc may (must, says C14) reject it; C09 only demands that it does not finish with status zero without output
 	}
 	gs := []gr{
-		{"LEXONLY", "a grammar without syntax part", false, c09LexOnly},
-		{"NESTED", "lexical part with repetitions of bodies that match the empty string", true, "t : 'x' { { 'a' } } 'y' ;\nu : { [ 'b' ] } 'c' ;\nS : t | S u ;\n"},
+		{"LEXONLY", "a grammar without syntax part", false, c09LexOnly, false},
+		{"NESTED", "lexical part with repetitions of bodies that match the empty string", true, "t : 'x' { { 'a' } } 'y' ;\nu : { [ 'b' ] } 'c' ;\nS : t | S u ;\n", false},
 	}
 	for _, g := range SynCorpus {
 		if g.Name == "G01" || g.Name == "G02" || !c.Quick() {
-			gs = append(gs, gr{g.Name, g.Why, true, g.BNF(false)})
+			gs = append(gs, gr{g.Name, g.Why, true, g.BNF(false), false})
 		}
 	}
 	for _, g := range HostileCorpus {
-		gs = append(gs, gr{g.Name, g.Why, true, g.BNF(false)})
+		gs = append(gs, gr{g.Name, g.Why, true, g.BNF(false), false})
 	}
+	gs = append(gs,
+		gr{"ILL-REGDEF", "ill-formed: undefined regular definition (gocc panics)", true, "_l : 'a'-'z' ;\nid : _l { _l | _x } ;\nS : id ;\n", true},
+		gr{"ILL-DUP", "ill-formed: token defined twice (gocc panics)", true, "id : 'a' ;\nid : 'b' ;\nS : id ;\n", true},
+		gr{"ILL-SYNTAX", "ill-formed: missing semicolon (gocc exits 1)", true, "id : 'a' ;\nS : id | S id\n", true},
+		gr{"ILL-CHAR", "ill-formed: invalid escape in a character literal (gocc panics)", false, "t : '\\q' ;\n", true},
+	)
 	var b strings.Builder
 	b.WriteString("//go:build verif\n\npackage main\n\nvar verifC09Grammars = []verifC09Grammar{\n")
 	for _, g := range gs {
-		fmt.Fprintf(&b, "\t{%q, %v, %q},\n", g.name, g.syn, g.src)
+		fmt.Fprintf(&b, "\t{%q, %v, %q, %v},\n", g.name, g.syn, g.src, g.ill)
 	}
 	b.WriteString("}\n")
 	dir, _ := os.MkdirTemp(c.Scratch, "c09data")
@@ -93,7 +100,10 @@ func c09PipelineJobs(c *Ctx) []Job {
 	os.WriteFile(data, []byte(b.String()), 0o644)
 	tm := &Target{ModDir: RepoRoot, PkgDir: RepoRoot, PkgPath: RepoMod, PkgName: "main", Harness: []string{VerifRoot + "/harness/main/c04.go", VerifRoot + "/harness/main/c14.go", VerifRoot + "/harness/main/c09.go", data}}
 	exit := func(e *engine.Engine, st *engine.St, args []engine.Value, call *ssa.CallCommon) (engine.Value, bool) {
-		e.AssertAt(st, e.S.False, "gocc does not exit early on a well-formed, conflict-free grammar with consistent flags")
+		ill := e.ReadGlobal(st, RepoMod, "verifC09Ill").(*engine.T)
+		code := args[0].(*engine.T)
+		e.AssertAt(st, ill, "gocc does not exit early on a well-formed, conflict-free grammar with consistent flags")
+		e.AssertAt(st, e.S.Not(e.S.Eq(code, e.S.Const(0, code.W))), "an early exit has a non-zero status")
 		e.Kill(st)
 		return nil, true
 	}
@@ -120,9 +130,16 @@ func c09PipelineJobs(c *Ctx) []Job {
 	}
 	var jobs []Job
 	for i, g := range gs {
+		req := []string{"generation completed"}
+		var allow []string
+		if g.ill {
+			req = []string{}
+			allow = []string{"panic @", "panic: "}
+		}
 		jobs = append(jobs, Job{
-			Name:   "main pipeline " + g.name,
-			Target: tm,
+			AllowPanic: allow,
+			Name:       "main pipeline " + g.name,
+			Target:     tm,
 			Run: SymRun{Harness: "VerifC09Main", Params: map[string]int{"ONLY": i}, LoopBound: 20000, ConcreteFmt: true, ForkFuncs: []string{"VerifC09Main", "main"}, Intrinsics: intr,
 				InitPkgs: func(p string) bool {
 					return p == "sort" || p == "unicode" || p == "unicode/utf8" || p == "strconv" || (strings.HasPrefix(p, RepoMod) && !strings.Contains(p, "/gen"))
@@ -130,7 +147,7 @@ func c09PipelineJobs(c *Ctx) []Job {
 			TimeoutS:            900,
 			ConfirmOnlyFailures: true,
 			Bounds:              fmt.Sprintf("the real main() on grammar %s (%s) with all seven boolean flags symbolic (no_lexer with debug_lexer excluded): terminates inside the unwinding bounds (20000 per loop) and returns normally having called the generators the configuration calls for; front end, symbol tables, lexer item sets, FIRST sets and LR(1) item sets are the shipped code, the four generators record their call", g.name, g.why),
-			RequiredCovers:      []string{"generation completed"},
+			RequiredCovers:      req,
 		})
 	}
 	return jobs
